@@ -402,7 +402,8 @@ def step(j):
         old = caching._max_size
         caching._max_size = int(j["max"])
         try:
-            wrapped = (caching.hit_cache if j.get("hit_cache") else caching.lru_cache)(fn)
+            wrapped = (caching.hit_cache if j.get("hit_cache") else
+                       (caching.lru_kw_cache if j.get("lru_kw") else caching.lru_cache))(fn)
             out = []
             for c in j["calls"]:
                 n = len(log)
